@@ -242,7 +242,7 @@ def renderTop : TopOut → String
   | .result r final =>
     let out := match r.output with | some v => s!"ok {renderVal v}" | none => "none"
     let insp := match r.output with | some _ => renderInsp final.insp | none => "-"
-    let ir := if r.errs.isEmpty && r.output.isSome then "ok" else "err"
+    let ir := match r.intoResult with | .ok _ => "ok" | .error _ => "err"
     s!"R {out} ; {joinWith "|" (r.errs.map renderErr)} ; insp={insp} ; ir={ir}"
 
 def renderEmis : Emis → String
@@ -291,6 +291,7 @@ structure Case where
   defs : List G
   main : G
   inputs : List (List Nat)
+  hasMemo : Bool := true
 
 def caseP : P Case := do
   let id ← tok
@@ -323,9 +324,13 @@ def caseP : P Case := do
 def mappedSpans (n gap : Nat) : List (Nat × Nat) :=
   (List.range n).map fun i => (i * (gap + 2) + gap, i * (gap + 2) + gap + 2)
 
+/-- does a `memoized` node occur in the case? (decides `Env.memoOn`: without such nodes the machine is run in exactly
+    the configuration the refinement theorems cover) -/
+def caseHasMemo (line : List String) : Bool := line.contains "memo"
+
 def mkEnv (c : Case) (toks : List Nat) : Env :=
   let n := toks.length
-  { toks := toks, kind := c.kind, ek := c.ek, defs := c.defs,
+  { toks := toks, kind := c.kind, ek := c.ek, defs := c.defs, memoOn := c.hasMemo,
     tspans := mappedSpans n c.gap,
     eoi := (n * (c.gap + 2) + c.gap, n * (c.gap + 2) + c.gap) }
 
@@ -344,7 +349,7 @@ partial def loop (inp out : IO.FS.Stream) : IO Unit := do
   let toks := (line.trimAscii.toString.splitOn " ").filter (· != "")
   if toks.isEmpty then loop inp out else
   match (caseP.run toks) with
-  | .ok (c, _) => runCase c out
+  | .ok (c, _) => runCase { c with hasMemo := caseHasMemo toks } out
   | .error e => out.putStrLn s!"ERR {e} :: {line.trimAscii.toString}"
   loop inp out
 
